@@ -321,6 +321,10 @@ func (o *vobj) ReadAt(p []byte, off int64) (int, error) {
 	o.probe()
 	var n int
 	var err error
+	if off < 0 || off > 1<<40 {
+		o.end("R", off, 0, syscall.EINVAL)
+		return 0, syscall.EINVAL // like pread(2)
+	}
 	if h := o.v.readHook; h != nil {
 		if hn, herr, ok := h(o, p, off); ok {
 			o.end("R", off, hn, herr)
@@ -362,6 +366,10 @@ func (o *vobj) WriteAt(p []byte, off int64) (int, error) {
 	o.probe()
 	var n int
 	var err error
+	if off < 0 || off > 1<<40 {
+		o.end("W", off, 0, syscall.EINVAL)
+		return 0, syscall.EINVAL // like pwrite(2)
+	}
 	if e := o.v.fail("W:" + itoa(int(off))); e != nil {
 		err = e
 	} else if b := o.v.firstBad(off, len(p), false, o.node); b >= 0 {
